@@ -340,11 +340,17 @@ class MementoFunction(MementoFunctionBase):
         version_salt: str = None,
     ) -> MementoFunctionType:
         """Re-constructs a clone of this function, modifying one or more attributes"""
-        return MementoFunction(
+        # A clone of an automatically versioned function is versioned automatically too:
+        # giving it the current version as an explicit one would freeze it for the life of
+        # the clone and exempt it from dependency validation. It starts from the current
+        # version and hash rules of this function instead.
+        if version is None and self.explicit_version is None:
+            self._update_dependencies()
+        clone = MementoFunction(
             fn=fn or self.fn,
             src_fn=src_fn or self.src_fn,
             cluster_name=cluster_name or self.cluster_name,
-            version=version or self.version(),
+            version=version or self.explicit_version,
             calculated_version=calculated_version or self._calculated_version,
             context=context or self.context,
             partial_args=partial_args or self.partial_args,
@@ -356,6 +362,9 @@ class MementoFunction(MementoFunctionBase):
             version_salt=version_salt or self._constructor_provided_version_salt,
             register_fn=False,
         )
+        if clone.explicit_version is None:
+            clone._hash_rules = self._hash_rules
+        return clone
 
     def call(self, *args, **kwargs):
         self._validate_dependency()
@@ -402,7 +411,11 @@ class MementoFunction(MementoFunctionBase):
         self._fn_reference = FunctionReference(
             self,
             cluster_name=self.cluster_name,
-            version=self.version(),
+            version=(
+                self.explicit_version
+                if self.explicit_version is not None
+                else self._calculated_version
+            ),
             partial_args=self.partial_args,
             partial_kwargs=self.partial_kwargs,
         )
@@ -420,6 +433,8 @@ class MementoFunction(MementoFunctionBase):
         if self._calculated_version is not None:
             cluster = Environment.get().get_cluster(cluster_name=self.cluster_name)
             if cluster is not None and cluster.locked:
+                if self._fn_reference is None:
+                    self._update_fn_reference()
                 return
 
         # Check the version cache to see if we need to recompute the version
